@@ -118,6 +118,15 @@ func refNegotiate(s []byte) refNeg {
 		need = 4 // the address length of an unknown type is unknowable
 	}
 	truncated := len(q) < need || !lenKnown
+	// replies a server may give as soon as it has seen the four fixed octets, whatever follows:
+	// BIND is a command a server need not support; a non-zero RSV may be refused as a general failure
+	var early []byte
+	if cmd == rCmdBind {
+		early = append(early, 7)
+	}
+	if rsv != 0 {
+		early = append(early, 1)
+	}
 	badVer := ver2 != rVer
 	badCmd := cmd != rCmdConnect && cmd != rCmdBind && cmd != rCmdUDP
 	badAtyp := atyp != rIPv4 && atyp != rDomain && atyp != rIPv6
@@ -137,6 +146,7 @@ func refNegotiate(s []byte) refNeg {
 		r.Reason = r.Reason[1:]
 		// a peer that does not speak version 5 may be dropped silently; a parser that reads the whole
 		// request before validating it sees only the truncation
+		r.Reps = append(r.Reps, early...)
 		r.ReplyRequired = !badVer && !truncated
 		r.MaxRead = off + min(len(q), need)
 		return r
@@ -150,7 +160,7 @@ func refNegotiate(s []byte) refNeg {
 		default:
 			r.TruncIn = "port"
 		}
-		r.Reason, r.MaxRead, r.Reps = "truncated/"+r.TruncIn, len(s), []byte{1}
+		r.Reason, r.MaxRead, r.Reps = "truncated/"+r.TruncIn, len(s), append([]byte{1}, early...)
 		return r
 	}
 	r.OK = true
@@ -164,11 +174,8 @@ func refNegotiate(s []byte) refNeg {
 	}
 	r.Port = int(q[need-2])<<8 | int(q[need-1])
 	// what the RFC leaves open
-	if cmd == rCmdBind {
-		r.Lenient, r.Reps = true, append(r.Reps, 7)
-	}
-	if rsv != 0 {
-		r.Lenient, r.Reps = true, append(r.Reps, 1)
+	if len(early) > 0 {
+		r.Lenient, r.Reps = true, append(r.Reps, early...)
 	}
 	if atyp == rDomain && len(r.Addr) == 0 {
 		r.Lenient, r.Reps = true, append(r.Reps, 1, 4, 8)
